@@ -146,6 +146,21 @@ def live_layout(regs):
     return out
 
 
+ACC_ID = {"NONE": 0, "RO": 1, "RW": 2, "WO": 3}
+
+
+def live_details(regs_list):
+    """details of FRESH live registers in the format of meta/RegDetails.json"""
+    out = []
+    for r in regs_list:
+        fs = []
+        for b in r._bitfields:
+            fs.append([b.reset_value, 1 if b.hidden else 0, ACC_ID[b.access.label.upper()], b.config_width - b.width, b.name, b.uid,
+                       [[e.get_value_int(), e.name] for e in b.get_enums()]])
+        out.append([r.get_value(raw=True), r.name, r.uid, ACC_ID[r.access.label.upper()], 1 if r.reverse else 0, fs])
+    return out
+
+
 def raw_values(regs):
     return [r.get_value(raw=True) for r in regs._registers]
 
@@ -257,6 +272,7 @@ class AreaBase:
     def verify(self, obj): return None
     def observable(self, obj): return self.export(obj)
     def settings(self, cfg): return cfg[self.settings_key]
+    def fresh_regs(self): return None   # list of the registers of a freshly constructed object
 
     def with_settings(self, cfg, settings):
         c = dict(cfg)
@@ -289,6 +305,7 @@ class PfrArea(AreaBase):
 
     def config(self, obj): return obj.get_config()
     def regs(self, obj): return obj.registers
+    def fresh_regs(self): return self.cls(family=self.family, revision=self.rev).registers._registers
 
 
 class SegArea(AreaBase):
@@ -310,6 +327,7 @@ class SegArea(AreaBase):
     def parse(self, data): return self.cls.parse(data, family=self.family, revision=self.rev)
     def config(self, obj): return obj.get_config()
     def regs(self, obj): return obj.registers
+    def fresh_regs(self): return self.cls(self.family, self.rev).registers._registers
 
 
 class FcbArea(AreaBase):
@@ -340,6 +358,7 @@ class FcbArea(AreaBase):
         return yaml.safe_load(obj.create_config())
 
     def regs(self, obj): return obj.registers
+    def fresh_regs(self): return self.cls(self.family, self.mt, self.rev).registers._registers
 
 
 class XmcdArea(AreaBase):
@@ -369,6 +388,14 @@ class XmcdArea(AreaBase):
         return yaml.safe_load(obj.create_config())
 
     def regs(self, obj): return obj.registers
+
+    def fresh_regs(self):
+        # (the XMCD constructor writes interface / block type / size into the header word: the specification state is the one of
+        #  the two register files before that)
+        from spsdk.image.xmcd.xmcd import XMCDConfigBlock, XMCDHeader
+        hdr = XMCDHeader._init_registers(self.family, self.rev)._registers
+        blk = XMCDConfigBlock._init_registers(self.family, self.mt, self.ct, self.rev).get_registers()
+        return list(hdr) + list(blk)
 
 
 class TzArea(AreaBase):
@@ -410,6 +437,7 @@ class FuseArea(AreaBase):
     def load(self, cfg): return self.cls.load_from_config(cfg)
     def config(self, obj): return obj.get_config()
     def regs(self, obj): return obj.fuse_regs
+    def fresh_regs(self): return self.cls(self.family, self.rev).fuse_regs._registers
 
     def observable(self, obj):
         # the fuse map has no binary form in SPSDK (fuses are burnt word by word): the observable is the value of
@@ -447,6 +475,7 @@ class MemcfgArea(AreaBase):
 
     def config(self, obj): return obj.get_config()
     def regs(self, obj): return obj.regs
+    def fresh_regs(self): return self._obj().regs._registers
 
     def observable(self, obj):
         # the configuration carries (by design) only the option words that count for the current settings
@@ -467,6 +496,7 @@ class Rec:
         self.fails = []      # (input, what, observed, expected, finding)
         self.model = []      # correspondence requests: dict
         self.layout = None
+        self.details = None
         self.infra = None
         self.t = 0.0
 
@@ -617,6 +647,9 @@ def _run_case(case, seed, modes, keys, rec):
     tsettings = A.settings(cfg)
     regs0 = A.regs(obj)
     if regs0 is not None:
+        fr = A.fresh_regs()
+        if fr is not None:
+            rec.details = live_details(fr)
         rec.layout = live_layout(regs0)
         E(len(regs0._registers) > 0, (cid, "registers"), "the area has no registers")
         _check_spec_complete(A, regs0, rec)
@@ -1217,7 +1250,7 @@ def run(ck):
 
     from spsdk.utils.database import DatabaseManager
     ck.max_fail_per_stream = 40
-    gen_names = ["RegLayouts", "PfrFuns"]
+    gen_names = ["RegLayouts", "RegDetails", "PfrFuns"]
     ck.lean_obligations(generated=gen_names)
     drv = ck.driver()
     ck.assume("YAML parsing (PyYAML safe_load, as SPSDK's load_configuration), YAML emission (ruamel.yaml) and JSON-schema validation "
@@ -1310,6 +1343,12 @@ def run(ck):
         for inp, what, obs, exp, finding in r.fails:
             sc.expect(False, inp, what, obs, exp, finding=finding)
     _correspondence(ck, drv, cases, recs)
+    # the evidence keeps the size of the generated tables, not the tables themselves (several MB)
+    for n in ("RegLayouts", "RegDetails"):
+        m = ck.generated_meta.get(n)
+        if m:
+            ck.generated_meta[n] = {"counts": m.get("counts"), "problems": m.get("problems", []),
+                                    "files": sorted({x["file"] for x in m.get("layouts", m.get("details", []))})}
 
 
 def _csv(vals):
@@ -1357,6 +1396,27 @@ def _correspondence(ck, drv, cases, recs):
                                 "rows_compared_with_live_objects": sum(1 for cid in rows if by_id[cid].layout is not None)}
     if mism:
         raise Infra("generated register layout differs from the live Registers object (generator replica out of date?): " + json.dumps(mism[:3]))
+    dmeta = (ck.generated_meta.get("RegDetails") or {}).get("details")
+    if dmeta is None:
+        raise Infra("generated meta for RegDetails missing")
+    dm = []
+    for cid, idx in rows.items():
+        r = by_id[cid]
+        if r.details is None:
+            continue
+        want = json.loads(json.dumps(dmeta[idx]["regs"]))
+        got = json.loads(json.dumps(r.details))
+        if got != want:
+            k = next((i for i, (x, y) in enumerate(zip(got, want)) if x != y), min(len(got), len(want)))
+            g, w = (got[k] if k < len(got) else None), (want[k] if k < len(want) else None)
+            if g and w and g[:5] == w[:5]:
+                j = next((i for i, (x, y) in enumerate(zip(g[5], w[5])) if x != y), 0)
+                g, w = (g[1], g[5][j] if j < len(g[5]) else None), (w[1], w[5][j] if j < len(w[5]) else None)
+            dm.append((cid, dmeta[idx]["file"], f"register #{k}: live {json.dumps(g)[:300]} generated {json.dumps(w)[:300]}"))
+    ck.extra["layout_table"]["rows_details_compared_with_live_objects"] = sum(1 for cid in rows if by_id[cid].details is not None)
+    ck.extra["layout_table"]["enum_values"] = ck.generated_meta["RegDetails"]["counts"]["enums"]
+    if dm:
+        raise Infra("generated register details (initial values, names, access, enums) differ from the live Registers object: " + json.dumps(dm[:3]))
     if drv is None:
         return
     sm = ck.stream("model_vs_code", "Lean model (drv_c12) against the real code on every vector of the sweep: exported bytes, values after parse, "
